@@ -5,12 +5,8 @@ from ..common import dec_val, run_go, canon, enc_val
 
 MODULE = "Genql.Properties.C08"
 LEAN_TARGETS = [MODULE]
-THEOREMS = [
-    "Genql.C08.nested_exec",
-    "Genql.C08.nested_exec_depth",
-    "Genql.C08.flat_is_base_case",
-    "Genql.C08.mix_concat",
-]
+THEOREMS = ["Genql.C08." + t for t in [
+    "levelElem_arr", "nested_exec", "flat_is_base_case", "nested_exec_depth", "mix_concat", "mix_concat_all"]]
 TRUSTED = ["sqlparser", "the `mix=>` top-level function is compared on the implementation (metamorphic) and modelled in C09"]
 RULE = ("documents with arrays of arrays of objects (ragged, empty inner arrays, depth 2-3) x WHERE + select lists with "
         "non-idempotent projections (a+1 AS a) so that a double application is visible; model correspondence, plus on the "
